@@ -26,3 +26,6 @@ PROPS["C02"]["trusted_base"] = PROPS["C02"]["trusted_base"] + [
 
 PROPS["C02"]["level_note"] = PROPS["C02"]["level_note"] + (
     " The favor_cpu_efficiency branch (the shared match index built on the calling thread before the last job runs) has no panic site in BV/Model/Multi.lean; that omission is justified by BV.Props.C06Hasher.favor_branch_never_panics (C06's module: for the kinds of quality 2..9 the BulkStoreRange calls of the branch read inside the input and write inside the constructor's tables), for quality 10/11 (H10, opaque Store) only by the no-panic oracle of the runs.")
+
+PROPS["C02"]["level_text"] = PROPS["C02"]["level_text"] + (
+    " multi_ok_over_stream_model (BV.Props.C02Part): CompressMulti with every job run over the stream machine on a fresh encoder - ALL jobs at quality 0/1 (no dictionary there; the qualities of the cut-stream defect), single-threaded calls, inputs shorter than the thread count - any spawner, any payload encoders, any capacity: Ok(k) implies that every job's FINISH call returned true with is_finished(), nothing pending and its whole piece consumed, the job's bytes are all the bytes that call produced, and output[..k] is the reference splice of these complete streams (multi_ok_sound composed with part_ok_iff_finished; no oracle hypothesis).")
